@@ -630,8 +630,8 @@ def check_dual(case, ctx):
 
 @st.composite
 def uniform_cases(draw, tier):
-    n = draw(st.integers(2, 6))
-    k = draw(st.integers(1, min(4, n)))
+    n = draw(st.integers(2, 7))
+    k = draw(st.integers(1, min(5, n)))
     edges = draw(st.lists(S.subsets(n, k, k), min_size=1, max_size=6,
                           unique_by=lambda e: tuple(sorted(e))))
     # a hyperedge of ANOTHER size that is inserted and removed again before the call (n >= 2, so
